@@ -185,6 +185,8 @@ class Engine:
             raise Infeasible()
         self.assumptions.append(t)
         self.solver.add(t)
+        if not _has_quant(t):
+            self.qf.add(t)
 
     def feasible(self):
         t0 = time.time()
@@ -459,22 +461,40 @@ class Engine:
     def entry_view(self):
         return Engine._EntryView(self)
 
+    def decide(self, t):
+        """True / False if the boolean term is entailed / refuted by the (quantifier-free part of the) current path,
+        else None"""
+        if isinstance(t, bool):
+            return t
+        t = z3.simplify(t)
+        if z3.is_true(t):
+            return True
+        if z3.is_false(t):
+            return False
+        s = self.qf
+        s.set('timeout', 500)
+        s.push()
+        s.add(z3.Not(t))
+        r = s.check()
+        s.pop()
+        if r == z3.unsat:
+            return True
+        s.push()
+        s.add(t)
+        r = s.check()
+        s.pop()
+        if r == z3.unsat:
+            return False
+        return None
+
     def unwrap(self, v):
-        """an optional value that is provably not None on this path is its payload"""
+        """an optional value that is provably (not) None on this path is its payload (None)"""
         if not isinstance(v, Opt):
             return v
-        self.solver.push()
-        self.solver.add(v.isnone)
-        self.solver.set('timeout', 1000)
-        r = self.solver.check()
-        self.solver.pop()
-        if r == z3.unsat:
+        d = self.decide(v.isnone)
+        if d is False:
             return v.val
-        self.solver.push()
-        self.solver.add(z3.Not(v.isnone))
-        r = self.solver.check()
-        self.solver.pop()
-        if r == z3.unsat:
+        if d is True:
             return None
         return v
 
@@ -512,6 +532,7 @@ class Engine:
             self.st = State()
             self.assumptions = []
             self.solver = z3.Solver()
+            self.qf = z3.Solver()           # quantifier-free part of the path condition: quick consequence checks
             self.ob_counter = {}
             self.allowed_mod = set()
             self.loop_ordinals = {}
@@ -873,6 +894,9 @@ class Engine:
             return Ref(mi.name + '.' + n.id)
         if n.id in BUILTINS:
             return Ref('builtins.' + n.id, 'builtin')
+        if self.spec_mode and n.id in SPEC_GLOBALS:
+            q, kind = SPEC_GLOBALS[n.id]
+            return Ref(q, kind)
         if n.id in ('True', 'False', 'None'):
             return {'True': True, 'False': False, 'None': None}[n.id]
         raise Unsupported('unbound name %s at line %s' % (n.id, getattr(n, 'lineno', '?')))
@@ -924,7 +948,15 @@ class Engine:
     def unop(self, op, v, n=None):
         from . import lib
         if isinstance(v, Arr):
-            return lib.map_arr(self, [v], lambda e: self.unop(op, e, n), None)
+            r = lib.map_arr(self, [v], lambda e: self.unop(op, e, n), None)
+            if isinstance(op, ast.USub):
+                try:
+                    inner = self.seq(v)
+                    self.set_seq(r, 'seq_neg', inner)
+                    r.neg_of = inner
+                except Unsupported:
+                    pass
+            return r
         if isinstance(op, ast.Not):
             if is_sym(v):
                 return Z(z3.Not(zbool(v)), BOOL)
@@ -1255,11 +1287,30 @@ class Engine:
         raise Unsupported('starred')
 
 
+def _has_quant(t):
+    seen = set()
+    stack = [t]
+    while stack:
+        x = stack.pop()
+        if z3.is_quantifier(x):
+            return True
+        i = x.get_id()
+        if i in seen:
+            continue
+        seen.add(i)
+        stack.extend(x.children())
+    return False
+
+
 class _NoDefault:
     pass
 
 
 _NODEFAULT = _NoDefault()
+
+SPEC_GLOBALS = {'np': ('numpy', 'module'), 'pd': ('pandas', 'module'),
+                'amp_by_time': ('neurodsp.timefrequency.amp_by_time', 'func'),
+                'detect_bursts_dual_threshold': ('neurodsp.burst.detect_bursts_dual_threshold', 'func')}
 
 BUILTINS = {'len', 'range', 'enumerate', 'zip', 'int', 'float', 'isinstance', 'list', 'max', 'min', 'str',
             'next', 'abs', 'dict', 'tuple', 'bool', 'print', 'sum', 'round', 'super', 'object', 'set',
